@@ -1514,11 +1514,15 @@ impl GRLParser {
 
             match function_name.to_lowercase().as_str() {
                 "retract" => {
-                    // Extract object name from $Object
+                    // Extract object name from $Object or from a quoted name ("Object")
+                    let args_str = args_str.trim();
                     let object_name = if let Some(stripped) = args_str.strip_prefix('$') {
                         stripped.to_string()
                     } else {
-                        args_str.to_string()
+                        match self.parse_value(args_str)? {
+                            Value::String(s) => s,
+                            _ => args_str.to_string(),
+                        }
                     };
                     Ok(ActionType::Retract {
                         object: object_name,
